@@ -479,6 +479,7 @@ def main(tier):
     agg.violations = final
     samples = [s for r in results for s in r.get('samples', []) if 'path' in s]
     rnd.shuffle(samples)
+    supported = set(n.decode('latin1') if isinstance(n, bytes) else n for n in names)
     done = 0
     for s in samples:
         if done >= b['validate']:
@@ -489,6 +490,8 @@ def main(tier):
             continue
         if any(seg.startswith('.') for seg in path.split('/')):
             continue      # hidden files are not walked by the CLI
+        if s['remap'] and (s['remap'][1] not in supported or '=' in s['remap'][0] or not s['remap'][0]):
+            continue      # the CLI (Args::validate, decided above) refuses such a -E pair: no run to compare with
         obs = observe_name(binary, path, s['remap'])
         exp = STYLES.get(s['grammar'], set()) if s['grammar'] else set()
         done += 1
